@@ -9,6 +9,7 @@ from __future__ import annotations
 import itertools
 import os
 import random
+import re
 import traceback
 from typing import Any
 
@@ -55,7 +56,10 @@ def _envs():
         output_stream_limit = 200_000
         local_namespace_limit = 2_000_000
 
-    return LimEnv, DictLoader
+    class LimEnvShorthand(LimEnv):
+        shorthand_indexes = True
+
+    return [LimEnv, LimEnvShorthand], DictLoader
 
 
 def _size(o: Any, depth: int = 0) -> int:
@@ -73,6 +77,7 @@ def _size(o: Any, depth: int = 0) -> int:
 
 
 HELPER_MODULES = ("limits", "filter", "stringify", "utils")
+_SHORTHAND_RELEVANT = re.compile(r"\.\s*\d")
 
 
 def _innermost(tb) -> str:  # noqa: ANN001
@@ -104,18 +109,20 @@ class Runner:
 
         self.ctx = ctx
         self.LiquidError = LiquidError
-        self.LimEnv, self.DictLoader = _envs()
+        self.variants, self.DictLoader = _envs()
+        self.LimEnv = self.variants[0]
+        self.variant = 0  # index into self.variants (1 = shorthand_indexes on)
         self.sc = StepCounter().start()
         self.corpus_sources = {c["template"] for c in corpus.cases()}
         self._envcache: dict[int, Any] = {}
 
     def env_for(self, templates: dict[str, str]):
-        k = id(templates)
+        k = (id(templates), self.variant)
         e = self._envcache.get(k)
         if e is None or e[1] is not templates:
             if len(self._envcache) > 64:
                 self._envcache.clear()
-            e = (self.LimEnv(loader=self.DictLoader(templates)), templates)
+            e = (self.variants[self.variant](loader=self.DictLoader(templates)), templates)
             self._envcache[k] = e
         return e[0]
 
@@ -196,7 +203,18 @@ class Runner:
                            "mode": mode, "minimised_from": source}
                 except Exception:  # noqa: BLE001
                     pass
+            wit["variant"] = self.variant
             ctx.violation(key, what, wit)
+        if record and self.variant == 0 and _SHORTHAND_RELEVANT.search(source):
+            # a dot followed by a digit scans differently under shorthand_indexes = True:
+            # the same input again under that configuration
+            self.variant = 1
+            try:
+                ctx.count("shorthand_config_runs")
+                k2 = self.execute(source, data, templates, mode)
+            finally:
+                self.variant = 0
+            key = key or k2
         return key
 
 
@@ -341,7 +359,7 @@ def filter_programs() -> list[str]:
 
 
 ALPHABET = "{%}#|:,.'\"[]()-~$\\a1 \n"
-OPENERS = ["", "{{", "{{ ", "{%", "{% ", "{{ a", "{{ a | f: ", "{% if ", "{% for x in ",
+OPENERS = ["", "{{", "{{ ", "{%", "{% ", "{{ ['a']", "{% if [a]", "{{ a.b", "{{ a", "{{ a | f: ", "{% if ", "{% for x in ",
            "{% assign x = ", "{{ 'x", "{{ \"${", "{% liquid ", "{# ", "{% raw %}", "{{ (1..",
            "{% case a %}{% when ", "{{ a[", "{% comment %}", "{{ a | map: i => "]
 CLOSERS = ["", " }}", " %}"]
@@ -376,6 +394,7 @@ def floors(tier: str) -> dict[str, int]:
         "set:liquid_error_classes": 5,
         "message_method_calls": 10_000 * k,
         "ok": 10_000 * k,
+        "shorthand_config_runs": 10_000 * k,
     }
 
 
@@ -600,6 +619,7 @@ def _rangeprobe(r: Runner, spec: dict[str, Any], ctx: Ctx) -> None:
 
 def replay(wit: dict[str, Any], ctx: Ctx) -> None:
     r = Runner(ctx)
+    r.variant = int(wit.get("variant") or 0)
     try:
         key = r.execute(wit["source"], wit.get("data") or {}, wit.get("templates") or {},
                         wit.get("mode", "sync"))
